@@ -33,7 +33,7 @@ class Ctx:
         self.prop = prop
         self.tier = tier
         self.seed = seed
-        self.work = os.path.join(WORKROOT, prop)
+        self.work = os.path.join(WORKROOT, '%s-%s-%d' % (prop, tier, os.getpid()))
         self.env = dict(os.environ)
         self.env.update(GOENV)
         self.env['VERIF_SEED'] = str(seed)
